@@ -531,7 +531,9 @@ ListAlphabet ==        \* C19: ordinary symbols of any value (negative, > 16 bit
     Const("n2", Num(-9)), Const("page", Num(262144)), Const("top", Num(65535)), Lab("buf.s"), Lab("buf.e"), Const("buf.len", Bin("-", Sym("buf.e"), Sym("buf.s"))),
     Const("a", Num(3)), Const("b", Num(512)), I0("nop"), W(<<A, B>>), Blkb(Num(3)), By(<<Num(1)>>), Inc(1), Inc(2), [k |-> "externall"],
     \* equal values whose names order differently as written and with the letter case folded
-    Const("Zed", Num(3)), Const("IOB", Num(512)), Const("IO_BASE", Num(512)) }
+    Const("Zed", Num(3)), Const("IOB", Num(512)), Const("IO_BASE", Num(512)),
+    \* a string whose size is announced before its contents are known (non-ASCII text under utf-8, a chunk naming a later symbol)
+    [k |-> "asciic", cs |-> << [u |-> <<1078, 1091, 1078>>], [e |-> Sym("z")] >>] }
 ListIncFiles == << [name |-> "i1", body |-> << Lab("x"), I0("nop"), Lab("a"), Const("n", Num(9)) >>],
                    [name |-> "i2", body |-> << Const("q", Num(-70000)), LabX("y"), By(<<Num(2)>>) >>] >>
 
